@@ -731,6 +731,15 @@ func replay(path string) {
 		checkUndo("replay", undoFromJSON(m))
 	case "fallback":
 		checkFallback("replay", fallbackFromJSON(m))
+	case "static":
+		checkStatic("replay", staticFromJSON(m))
+	case "purge":
+		// the purge walks the maps in iteration order: a failure that needs an order shows up within a few repetitions
+		for i := 0; i < 40 && r.Violations() == 0; i++ {
+			checkPurge("replay", purgeFromJSON(m))
+		}
+	case "geometry":
+		checkGeometry("replay", geometryFromJSON(m))
 	case "snap":
 		sc := &snapCase{Compressed: bl("compressed"), ViaCommit: bl("via_commit")}
 		h, _ := m["height"].(float64)
@@ -768,6 +777,8 @@ func main() {
 		"record keys (first 8 txid bytes) are distinct inside one snapshot (key collisions are property C04's subject)",
 		"secp256k1 field arithmetic is represented in the model by plain arithmetic mod p (mathKeys); compared with ParsePubkey/IsValid/GetPublicKey on every run; KeyOps.Sound for mathKeys is PROVED without hypothesis (mathKeys_sound_unconditional: primality of p from C08's Pratt certificate); that the Go 5x52 field code computes these functions is tested here and is property C08's subject",
 		"process-level effects of save() (rename UTXO.db→UTXO.old, temp file) are not modelled, only the bytes of the files are; the fallback stream lets the real save() produce both files and damages them afterwards (a crash DURING save is property C07's subject)",
+		"PurgeUnspendable removes outputs on purpose (script.IsUnspendable decides which): the purge stream requires every OTHER output and record to be unchanged, it does not judge the criterion",
+		"the forced schedule of the chain-undo stream (undo file serialised after db.commit() returned) is produced by wrapping the utxo.Serialize variable and the vhook point utxo.commit:after-commit; nothing but timing is changed",
 		"the loader's map-filling goroutine is folded into the reader in Model.UtxoLoad (a pack is inserted when it is sent): justified by loader_ring_safe and by the error path waiting for the goroutine before the retry (fix eab07278, property C07)",
 	}
 	if r.Replay != "" {
@@ -791,7 +802,9 @@ func main() {
 	stage("scripts", runScripts)
 	stage("records", runRecords)
 	stage("malformed", runMalformed)
+	stage("static", runStatic)
 	stage("snapshots", runSnapshots)
+	stage("geometry", runGeometry)
 	if r.Violations() == 0 {
 		stage("fallback", runFallback)
 	} else {
@@ -806,9 +819,10 @@ func main() {
 	}
 	r.Extra["noncanonical_keys_available"] = len(ncKeys)
 	r.Finish("corpus (boundaries named in the property's quantifier) + structured generator (genRec/genScript/genAmount, all from VERIF_SEED) + malformed-bytes stream; "+
-		"a case is distinct by its full input (amount / script / record line+mode / snapshot contents); fallback stream: two-save history through the real code (1..10 records, partial / full spends, new records), then UTXO.db and UTXO.old each intact / missing / cut at a position drawn per class (header, after the header, between records, length prefix, inside a record, last byte) / header count raised, UTXO.old optionally in the other format, reopened by the real loader; one pair of snapshots longer than a loader pack cut after a whole pack; undo stream: 1..10 records committed by one block, a subset of their outputs (none / one / random / all) spent by the next block which also adds records, that block undone, with the client's recycling allocator in steady state, a poisoning allocator and the Go heap, plain and compressed; one snapshot of 11..15 loader packs with concentrated keys reloaded under GOMAXPROCS 1/2/default",
+		"a case is distinct by its full input (amount / script / record line+mode / snapshot contents); fallback stream: two-save history through the real code (1..10 records, partial / full spends, new records), then UTXO.db and UTXO.old each intact / missing / cut at a position drawn per class (header, after the header, between records, length prefix, inside a record, last byte) / header count raised, UTXO.old optionally in the other format, reopened by the real loader; one pair of snapshots longer than a loader pack cut after a whole pack; undo stream: 1..10 records committed by one block, a subset of their outputs (none / one / random / all) spent by the next block which also adds records, that block undone, with the client's recycling allocator in steady state, a poisoning allocator and the Go heap, plain and compressed; one snapshot of 11..15 loader packs with concentrated keys reloaded under GOMAXPROCS 1/2/default; static stream: histories of 3..9 records (leading dense record, then any output count / sparsity, one history in 50 with a record longer than the pool, formats alternating) through NewUtxoRecStatic / NewUtxoRecStaticU, and databases of 2..13 records with unspendable outputs through PurgeUnspendable(all / not all), in memory and after Close()+reload; geometry stream: snapshots of equal-size records whose frame length divides k·256 KiB − 48 − d, so that a record starts d bytes before a multiple of 256 KiB whatever order save() writes them in — d at the record start, inside the 3- and 5-byte length prefix (both formats), between prefix and key, inside the key, the txid, the body; 1-, 3- and 5-byte prefixes; chain-undo stream: the second block of an undo case as a block of transactions (coinbase + transactions of 1..4 inputs spending the case's outputs) through chain.ProcessBlockTransactions, committed with the undo file's serialisation held until db.commit() has finished (poisoning allocator / client allocator) or unforced, then undone",
 		"Each case runs on the real gocoin code; the property predicate (what was stored comes back: whole decode, single-output lookup, snapshot reload) is evaluated on the real results, "+
-			"and every real result (serialised bytes, decoded record, lookup, compressed script/amount, snapshot file bytes, partly spent and undo-merged records) is compared with the Lean model's. "+
+			"and every real result (serialised bytes, decoded record, lookup, compressed script/amount, snapshot file bytes, partly spent and undo-merged records, results of the pooled decoder) is compared with the Lean model's. "+
+			"Ownership fact looked at on every chain-undo case: after ProcessBlockTransactions no script reachable from BlockChanges.UndoData lies inside a record of the UTXO maps (addresses compared); a broken fact for which no schedule produced a changed record is reported as a tie failure. "+
 			"Fixed defect "+keyNonCanon+" (fix: 06ea4281, fixed: line in known_findings.txt): uncompressed P2PK keys with X or Y ≥ p used to be accepted by ParsePubkey/IsValid, compressed, and came back with reduced (and for Y ≥ p negated) coordinates; such keys are now stored verbatim. The witnesses stay in the corpus and in every stream (record, snapshot, undo) and are judged like every other script: a mismatch there is a VIOLATION under the stream's ordinary key. "+
 			"Malformed bytes on which the model gives no prediction ('hang': a negative skip length walks the Go loop backwards; fuel exhausted) are still given to the real decoder (in a child process, killed after 1 s) and its outcome is recorded (bytes:model-no-prediction/…).")
 }
